@@ -333,10 +333,12 @@ def build_and_run_twin(unit, chk, inputs, workdir, native_slices=None, obligatio
     if unit.spec.get('wrap', 'wrap.cpp'):
         cxx.append(unit.file(unit.spec.get('wrap', 'wrap.cpp')))
     cxx += [unit.file(f) for f in unit.spec.get('native_extra', [])]
-    for sp in unit.spec.get('sources', []):
-        for ap in sp.get('append', []):
-            if unit.file(ap) not in cxx:
-                cxx.append(unit.file(ap))
+    for k, sp in enumerate(unit.spec.get('sources', [])):
+        if sp.get('append'):
+            # the files cbmc sees at the end of the sliced source form ONE native translation unit of their own
+            comb = os.path.join(workdir, 'native_append_%d.cpp' % k)
+            open(comb, 'w').write(''.join('#include "%s"\n' % unit.file(ap) for ap in sp['append']))
+            cxx.append(comb)
     for i, f in enumerate(cxx):
         o = os.path.join(workdir, 'n%d.o' % i)
         rc, out, err, _ = vp.sh(['g++', '-std=gnu++14', '-Dprivate=public', '-Dprotected=public', '-I' + unit.dir] + fl + defs + ['-c', f, '-o', o])
